@@ -128,6 +128,11 @@ def generic_rules(body):
     for h in re.finditer(r'\bfor\s+(\w+)\s+in\s+([^{;]*?)\s*\.\s*iter\(\)\s*\.\s*cloned\(\)\s*\{', m):
         e = body[h.start(2):h.end(2)]
         edits.append((h.start(), h.end(), 'for %s in %s.iter() { let %s = *%s;' % (h.group(1), e, h.group(1), h.group(1)), 'R1'))
+    # R14  for X in E.by_ref() {   =>   loop { let X = match E.next() { Some(v__) => v__, None => break };
+    #      (what `for` over a borrowed iterator does; the iterator contract is then the one of E.next())
+    for h in re.finditer(r'\bfor\s+(\w+)\s+in\s+([^{;]*?)\s*\.\s*by_ref\(\)\s*\{', m):
+        e = body[h.start(2):h.end(2)]
+        edits.append((h.start(), h.end(), 'loop { let %s = match %s.next() { Some(v__) => v__, None => break };' % (h.group(1), e), 'R14'))
     # R2  E.for_each(|v| { B });   =>   for v in E { B }      (statement level only)
     for h in re.finditer(r'\.\s*for_each\s*\(', m):
         op = h.end() - 1
